@@ -39,6 +39,11 @@ pub fn stream_file(name: &str) -> Vec<u8> {
             for i in 0..12i16 { d.extend_from_slice(&(i * 1237 - 5000).to_le_bytes()); }
             fam_npy::assemble(1, &h, &d)
         }
+        // header versions 2.0 and 3.0: the header length is FOUR bytes (a read boundary may fall inside it)
+        "npy_v2" | "npy_v3" => {
+            let h = format!("{:<115}\n", "{'descr': '<f8', 'fortran_order': False, 'shape': (3,), }");
+            fam_npy::assemble(if name == "npy_v2" { 2 } else { 3 }, &h, &data)
+        }
         "npy_u1_short" => {
             let h = format!("{:<117}\n", "{'descr': '|u1', 'fortran_order': False, 'shape': (24,), }");
             fam_npy::assemble(1, &h, &(0..23u8).collect::<Vec<u8>>())
